@@ -1677,7 +1677,7 @@ impl ArchiveBuilder {
         }
 
         // Process full u32 chunks
-        let (chunks, remainder) = data.split_at_mut((data.len() / 4) * 4);
+        let (chunks, _remainder) = data.split_at_mut((data.len() / 4) * 4);
 
         // Convert chunks to u32 values, encrypt, and write back
         let mut u32_buffer = Vec::with_capacity(chunks.len() / 4);
@@ -1693,20 +1693,8 @@ impl ArchiveBuilder {
             chunks[i * 4..(i + 1) * 4].copy_from_slice(&bytes);
         }
 
-        // Handle remaining bytes
-        if !remainder.is_empty() {
-            let mut last_dword = [0u8; 4];
-            last_dword[..remainder.len()].copy_from_slice(remainder);
-
-            let mut last_u32 = u32::from_le_bytes(last_dword);
-            encrypt_block(
-                std::slice::from_mut(&mut last_u32),
-                key.wrapping_add((chunks.len() / 4) as u32),
-            );
-
-            let encrypted_bytes = last_u32.to_le_bytes();
-            remainder.copy_from_slice(&encrypted_bytes[..remainder.len()]);
-        }
+        // Trailing bytes that do not fill a whole DWORD are left unencrypted, as the
+        // MPQ format specifies (the cipher works on 32-bit words only).
     }
     /// Encrypt u32 data in place
     fn encrypt_data_u32(&self, data: &mut [u32], key: u32) {
